@@ -92,32 +92,30 @@ class _Num(object):
 
 
 # ------------------------------------------------------------------ pipeline obligations (E1)
+def grounded_params(text):
+    """parameters whose annotation is a weight of the compiled formula the evaluator works on (the annotations that inference evaluates)"""
+    from problog import get_evaluatable
+    from problog.program import PrologString
+    lf = get_evaluatable("ddnnf").create_from(PrologString(text))
+    out = set()
+    for k, w in lf.get_weights().items():
+        s_ = str(w)
+        if symsem.PARAM_RE.match(s_):
+            out.add(s_)
+    return out
+
+
 def relevant_groups(prog):
-    """Groups (ground AD / fact instances) with a head inside the dependency cone of a query or
-    evidence atom of the reference grounding."""
+    """parameter groups (ground AD / fact instances) with at least one annotation in the real ground program"""
     G = refsem.ground(prog)
-    targets = []
-    for pat in G.query_patterns:
-        targets += refsem.query_instances(G, pat)
-    targets += [a for a, _ in G.evidence]
-    seen = set()
-    stack = list(targets)
-    used = set()
-    while stack:
-        a = stack.pop()
-        if a in seen:
-            continue
-        seen.add(a)
-        for ch, body in G.clauses.get(a, []):
-            if ch is not None:
-                used.add(ch)
-            for b, neg in body:
-                stack.append(b)
+    text = gen.program_text(prog)
+    gp = grounded_params(text)
     out = []
     for g in G.groups:
-        if any(b in used for _, b in g.heads) and all(pr[:1] == "p" for pr, _ in g.heads):
-            out.append([pr for pr, _ in g.heads])
-    return out, G
+        ps = [pr for pr, _ in g.heads]
+        if all(pr[:1] == "p" for pr in ps) and any(pr in gp for pr in ps):
+            out.append(ps)
+    return out, G, gp
 
 
 def work(item):
@@ -129,7 +127,7 @@ def work(item):
     text = gen.program_text(prog)
     pkey = short_hash(text)
     try:
-        rel, G = relevant_groups(prog)
+        rel, G, gp = relevant_groups(prog)
     except Exception as e:
         st.ob("inconclusive", note="reference grounding failed: %s" % e)
         return st
@@ -140,7 +138,7 @@ def work(item):
     rng = random.Random(name)
     cases = []
     g = rng.choice(rel)
-    bad = rng.choice(g)
+    bad = rng.choice([p for p in g if p in gp])
     cases.append(("%s<0" % bad, [bad], [z3.Real(bad) < 0]))
     cases.append(("%s>1" % bad, [bad], [z3.Real(bad) > 1]))
     multi = [g for g in rel if len(g) > 1]
@@ -166,7 +164,14 @@ def work(item):
         except (sym.Unsupported, sym.Inconclusive) as e:
             st.ob("inconclusive", key=okey, note="forking: %s" % e)
             continue
-        bad_out = [o for o in outs if not (o.kind == "error" and isinstance(o.error, InvalidValue))]
+        # errors the VALID program raises as well (inconsistent evidence, negative cycle) are not the annotation's business
+        from vlib import diffcheck
+        bkind, bres = symsem.run_float(symsem.substitute_params(text, diffcheck.default_values(params, all_groups)))
+        base_err = type(bres).__name__ if bkind == "error" else None
+
+        def rejected(kind_, err):
+            return kind_ == "error" and (isinstance(err, InvalidValue) or (base_err is not None and type(err).__name__ == base_err))
+        bad_out = [o for o in outs if not rejected(o.kind, o.error)]
         if not bad_out:
             st.ob("proved", key=okey)
             continue
@@ -180,15 +185,19 @@ def work(item):
             continue
         vals = symsem.model_values(s.model(), params)
         kind, res = symsem.run_float(symsem.substitute_params(text, vals))
-        if kind == "error" and isinstance(res, InvalidValue):
-            st.harness_error("C30 witness did not replay (%s): %s %s" % (cname, text, vals))
+        if rejected(kind, res):
+            st.ob("inconclusive", key=okey, note="witness of a non-rejecting symbolic path is rejected concretely (%s)" % cname)
             continue
         st.ob("refuted", key=okey)
-        cls = "ad-sum" if cname.startswith("sum") else "range"
-        nheads_grounded = "partial"
-        st.violation("%s:%s:%s" % (cls, pkey, cname) if cls == "range" else
-                     "ad-sum-not-checked:%s" % ("answers" if kind == "ok" else type(res).__name__),
-                     "annotation case %s: inference %s instead of raising InvalidValue (values %s)" % (
+        if cname.startswith("sum"):
+            sg = sum(vals[p] for p in badps if p in gp)
+            if sg <= 1:
+                key = "ad-sum>1:excess-only-with-ungrounded-heads"
+            else:
+                key = "ad-sum>1:grounded-heads-exceed-one:%s:%s" % ("answers" if kind == "ok" else type(res).__name__, pkey)
+        else:
+            key = "range:%s:%s" % ("answers" if kind == "ok" else type(res).__name__, pkey)
+        st.violation(key, "annotation case %s: inference %s instead of raising InvalidValue (values %s)" % (
                          cname, "returned %s" % res if kind == "ok" else "raised %s" % type(res).__name__,
                          dict((k, str(v)) for k, v in vals.items())),
                      {"kind": "c30", "ast": prog, "program": text,
